@@ -9,7 +9,7 @@ if [ -n "${SEED_COPY:-}" ]; then
   copy=/tmp/seedrepo-$name; rm -rf $copy; mkdir -p $copy
   git -C /repo archive HEAD | tar -x -C $copy
   (cd $copy && git init -q . && git apply /verif/seeded/$name/patch.diff) || { echo "patch does not apply"; exit 3; }
-  VERIF_REPO=$copy ./check $prop $tier > /tmp/seedrun-$name.out 2>&1; code=$?
+  VERIF_EVIDENCE_DIR=/tmp/seed-evidence VERIF_REPO=$copy ./check $prop $tier > /tmp/seedrun-$name.out 2>&1; code=$?
   rm -rf $copy
 else
   git -C /repo apply /verif/seeded/$name/patch.diff || { echo "patch does not apply"; exit 3; }
